@@ -35,7 +35,7 @@ ASSUMPTIONS = [
 # hand-verified (English) singular forms; None = no distinct singular -> '<attr>_item'
 SINGULAR = {"items": "item", "boxes": "box", "children": "child", "data": "datum", "sheep": None, "foos": "foo", "foo": None, "values": "value",
             "entries": "entry", "keys": "key", "nums": "num", "names": "name", "men": "man", "leaves": "leaf", "a_items": "a_item", "a": None, "item": None,
-            "item_item": None, "items_item": None, "x": None, "xs": "x", "child": None, "lines": "line", "line": None, "lines_items": "lines_item"}
+            "item_item": None, "items_item": None, "extras": "extra", "x": None, "xs": "x", "child": None, "lines": "line", "line": None, "lines_items": "lines_item"}
 SCALAR_VERBS = ["with", "update", "transform", "reset"]
 ELEM_VERBS = ["with", "update", "transform", "without"]
 TOP = ["update", "transform", "reset"]
@@ -155,6 +155,8 @@ def make_class(case):
     for sw in ("init", "repr", "eq"):
         if sw in case["switches_off"]:
             opts[sw] = False
+    if case.get("overflow"):
+        opts["init_overflow_attr"] = OVERFLOW
     if select == "attrs":
         opts["attrs"] = [a for a, _ in attrs]
     elif select == "attrs_typed":
@@ -181,6 +183,16 @@ MIXED = ("attrs+skip0", "attrs+skip1", "attrs_typed+skip0", "attrs_typed+skip1",
 
 def effective(case):
     """The managed attributes with the type family their helpers are generated for."""
+    out = _effective(case)
+    if case.get("overflow"):
+        out = out + [(OVERFLOW, "dict")]  # documented: the overflow attribute is a managed Dict[str, Any] attribute
+    return out
+
+
+OVERFLOW = "extras"
+
+
+def _effective(case):
     attrs = [tuple(a) for a in case["attrs"]]
     select = case["select"]
     if select == "attrs":  # with `attrs=` every attribute is typed Any (no collection helpers)
@@ -365,6 +377,30 @@ def run_case(ctx, case):
         if not (isinstance(r, str) and r.startswith("K(")) or e is not True:
             ctx.fail("backup_broken|result", case, f"__spec_class_repr__ -> {r!r}, __spec_class_eq__(self) -> {e!r}")
             return
+    # (2b) occupying helper names does not break the generated constructor: keywords reach the attributes, surplus keywords
+    # reach the overflow attribute, and none of the user's own definitions is run on the way
+    if case["occupied"] and "init" not in case["switches_off"] and not case["user_dunders"]:
+        kw = {OVERFLOW + "_zz": 1} if case.get("overflow") else {}
+        first = eff[0]
+        kw[first[0]] = NEW_VALUE[first[1]]
+        try:
+            built = dec(**kw)
+            state = {a: getattr(built, a, "<unset>") for a, _ in eff}
+        except Exception as ex:
+            ctx.fail(f"constructor_broken|{type(ex).__name__}|{_role(names, case['occupied'][0][0])}", case,
+                     f"with {case['occupied']} defined in the class body, K(**{kw}) raised {ex!r}")
+            return
+        want_state = {first[0]: NEW_VALUE[first[1]]}
+        if case.get("prep_scalars") and first[1] == "int" and tuple(first) in attrs:
+            want_state[first[0]] += 1000  # (its preparer)
+        if case.get("overflow"):
+            want_state[OVERFLOW] = {OVERFLOW + "_zz": 1}
+        got_state = {a: state[a] for a in want_state}
+        if got_state != want_state:
+            ctx.fail(f"constructor_broken|state|{_role(names, case['occupied'][0][0])}", case,
+                     f"with {case['occupied']} defined in the class body, K(**{kw}) built {state} (wanted {want_state})")
+            return
+        ctx.count("constructed_with_occupied_names")
     # (3) exactly the documented helper names (plus dunders)
     new_public = {n for n in now if n not in pre and not n.startswith("__")}
     want = {n for n in names if n not in pre}
@@ -384,9 +420,9 @@ def run_case(ctx, case):
                 continue
             t = dict(eff)[a]
             try:
-                before = {x: repr(getattr(inst, x, None)) for x, _ in attrs}
+                before = {x: repr(getattr(inst, x, None)) for x, _ in eff}
                 res = getattr(inst, n)("k", 5) if t == "dict" else getattr(inst, n)(5)
-                after = {x: repr(getattr(res, x, None)) for x, _ in attrs}
+                after = {x: repr(getattr(res, x, None)) for x, _ in eff}
             except Exception as ex:
                 ctx.fail(f"helper_broken|{role}", case, f"{n} raised {ex!r}")
                 return
@@ -494,6 +530,15 @@ def enum_cases():
             for kind in ("function", "staticmethod", "property", "value", "none", "false", "zero"):
                 for eager in (True, False):
                     yield base_case(attrs, occupied=[[n, kind]], eager=eager)
+        if len(attrs) <= 2:
+            onames, oerr = expected_names(list(attrs) + [(OVERFLOW, "dict")])
+            for eager in (True, False):
+                yield base_case(attrs, overflow=True, eager=eager)
+            for n in onames:
+                if OVERFLOW not in n and "extra" not in n and n not in TOP:
+                    continue
+                for kind in ("function", "staticmethod", "property", "value", "none"):
+                    yield base_case(attrs, overflow=True, occupied=[[n, kind]], eager=kind != "property")
             for kind in ("plain", "spec"):
                 for eager in (True, False):
                     yield base_case(attrs, sub=[kind, [n]], eager=eager)
@@ -511,6 +556,8 @@ def case_strategy(draw):
             c["split_mode"] = "bases"
         return c
     c["prep_scalars"] = src.chance(1, 4)
+    if src.chance(1, 5):
+        c["overflow"] = True
     c["switches_off"] = [s for s in ("init", "repr", "eq") if src.chance(1, 6)]
     c["user_dunders"] = [d for d in ("__init__", "__repr__", "__eq__", "__new__") if src.chance(1, 5)]
     names, err = expected_names(effective(c))
